@@ -85,10 +85,19 @@ func lines(t string) []astisub.Line {
 	for _, s := range strings.Split(t, "\n") {
 		// every run carries a non-zero inline timestamp and its own inline style object: content that list
 		// operations must leave alone (ContentSnap sees both)
-		ls = append(ls, astisub.Line{VoiceName: "v", Items: []astisub.LineItem{{Text: s, StartAt: 1234567 * time.Nanosecond, InlineStyle: &astisub.StyleAttributes{SRTItalics: true}}}})
+		// "|" separates the runs of a line
+		ln := astisub.Line{VoiceName: "v"}
+		for _, run := range strings.Split(s, "|") {
+			ln.Items = append(ln.Items, astisub.LineItem{Text: run, StartAt: 1234567 * time.Nanosecond, InlineStyle: &astisub.StyleAttributes{SRTItalics: true}})
+		}
+		ls = append(ls, ln)
 	}
 	return ls
 }
+
+// Shown is the text of a cue as displayed: the runs of a line follow each other directly (runs carry their own
+// blanks), so "xy" in one run and "x|y" in two are the same text in different segmentations.
+func Shown(t string) string { return strings.ReplaceAll(t, "|", "") }
 
 // Build makes a fresh real list. styles/regions: ids to define (every St/Rg used must be listed).
 func Build(l List, styles, regions []string) *Real {
@@ -138,11 +147,11 @@ func (r *Real) OrigSnap(it *astisub.Item) (string, bool) { s, ok := r.snap[it]; 
 func ItemText(it *astisub.Item) string {
 	var ls []string
 	for _, l := range it.Lines {
-		var b strings.Builder
+		var runs []string
 		for _, li := range l.Items {
-			b.WriteString(li.Text)
+			runs = append(runs, li.Text)
 		}
-		ls = append(ls, b.String())
+		ls = append(ls, strings.Join(runs, "|"))
 	}
 	return strings.Join(ls, "\n")
 }
